@@ -1,10 +1,13 @@
 #!/bin/bash
-# try_mutant.sh <patch.diff> <property> [--entry REGEX] : apply to /repo, run the quick check, revert
+# try_mutant.sh <patch.diff> <property> [--entry REGEX] : run the property's quick check against a
+# scratch worktree of /repo's HEAD with the patch applied (VERIF_REPO), so that /repo itself - which
+# background sweeps read - is never modified. Evidence of the trial goes to out/evidence-scratch.
 set -u
-P=$1; shift
-cd /repo && git status --short | grep -v '^??' | head -1 | grep -q . && { echo "/repo not clean"; exit 2; }
-git -C /repo apply $P || { echo "patch does not apply"; exit 2; }
-cd /verif && VERIF_SCRATCH_EVIDENCE=1 ./check "$@" --tier quick 2>&1 | grep -v "^  discharged" | tail -12
+P=$(readlink -f "$1"); shift
+WT=/tmp/verif_mutant_wt
+git -C /repo worktree remove --force $WT >/dev/null 2>&1
+git -C /repo worktree add --detach $WT HEAD >/dev/null 2>&1 || { echo "cannot create worktree"; exit 2; }
+git -C $WT apply $P || { echo "patch does not apply"; git -C /repo worktree remove --force $WT; exit 2; }
+cd /verif && VERIF_REPO=$WT VERIF_SCRATCH_EVIDENCE=1 ./check "$@" --tier quick 2>&1 | grep -v "^  discharged" | tail -12
 echo "check exit=${PIPESTATUS[0]}"
-git -C /repo checkout -- .
-git -C /repo status --short | grep -v '^??' | head -3
+git -C /repo worktree remove --force $WT >/dev/null 2>&1
